@@ -104,6 +104,7 @@ def renderOp : Op → String
 
 inductive Kind where
   | unsync | sync | sketch | deque
+  | concs      -- the concurrent cache driven through its phase-split API (model ConcS.lean)
   deriving Repr, DecidableEq, Inhabited
 
 inductive WeigherKind where
@@ -186,6 +187,7 @@ def parseCfgField (c : Cfg) (kv : String) : Option Cfg :=
   | ["kind", "sync"] => some { c with kind := .sync }
   | ["kind", "sketch"] => some { c with kind := .sketch }
   | ["kind", "deque"] => some { c with kind := .deque }
+  | ["kind", "concs"] => some { c with kind := .concs }
   | ["cap", v] => (parseOptNat v).map fun x => { c with cap := x }
   | ["w", v] => (parseWeigher v).map fun x => { c with weigher := x }
   | ["ttl", v] => (parseOptNat v).map fun x => { c with ttl := x }
